@@ -35,28 +35,33 @@ pub fn enabled() -> bool {
 	SINK.with_borrow(Option::is_some)
 }
 pub fn emit(site: &'static str, what: &'static str, id: usize, idx: usize) {
-	SINK.with_borrow_mut(|s| {
-		if let Some(s) = s {
-			s.push(Event {
-				site,
-				what,
-				id,
-				idx,
-				key: None,
-			});
+	// try_with/try_borrow: drop notifications may arrive during thread teardown
+	let _ = SINK.try_with(|s| {
+		if let Ok(mut s) = s.try_borrow_mut() {
+			if let Some(s) = &mut *s {
+				s.push(Event {
+					site,
+					what,
+					id,
+					idx,
+					key: None,
+				});
+			}
 		}
 	});
 }
 pub fn emit_key(site: &'static str, what: &'static str, id: usize, idx: usize, key: &dyn ToString) {
-	SINK.with_borrow_mut(|s| {
-		if let Some(s) = s {
-			s.push(Event {
-				site,
-				what,
-				id,
-				idx,
-				key: Some(key.to_string()),
-			});
+	let _ = SINK.try_with(|s| {
+		if let Ok(mut s) = s.try_borrow_mut() {
+			if let Some(s) = &mut *s {
+				s.push(Event {
+					site,
+					what,
+					id,
+					idx,
+					key: Some(key.to_string()),
+				});
+			}
 		}
 	});
 }
